@@ -69,7 +69,7 @@ FieldOk(n) ==
     [] n = "component_version" -> hdr.cv = G.cv
     [] n = "build_number"      -> hdr.build = G.build
     [] n = "timestamp"         -> hdr.ts = <<G.ts[1], G.ts[2], 0>>
-    [] n = "nonce"             -> hdr.nonceCtr = G.nonceCtr
+    [] n = "nonce"             -> hdr.nonce = G.nonce /\ hdr.nonceCtr = G.nonceCtr
     [] n = "section_id"        -> Len(dec) <= Len(G.secs) /\ dec[Len(dec)].uid = G.secs[Len(dec)].uid
     [] n = "hmac_count"        -> Len(dec) <= Len(G.secs) /\ dec[Len(dec)].hmacCount = Min(G.secs[Len(dec)].hmacReq, hm.count)
     [] OTHER -> FALSE
@@ -86,7 +86,7 @@ TParseHeader == /\ Is("ParseHeader") /\ Tr.kind \in {"rom", "anchor"} /\ E.longE
                 /\ Soft("image_blocks", E.imageBlocks = ImageBlocksFixed(E))
                 /\ ParseHeader([E EXCEPT !.imageBlocks = ImageBlocksFixed(E)])
                 /\ pend' = (IF Bound THEN HeaderMarkers ELSE <<>>) /\ NoP /\ Adv
-TUnwrap == Is("UnwrapKeyBlob") /\ UnwrapKeyBlob(E) /\ UNCHANGED pend /\ NoP /\ Adv
+TUnwrap == Is("UnwrapKeyBlob") /\ UnwrapKeyBlob(E) /\ (Bound => E.keys = G.keys) /\ UNCHANGED pend /\ NoP /\ Adv     \* the DEK and MAC key that were supplied
 THdrMac == Is("CheckHeaderMac") /\ (CheckHeaderMac20(E) \/ CheckHeaderMac21(E)) /\ UNCHANGED pend /\ NoP /\ Adv
 CertGiven == E.count = G.chain /\ E.rootIdx = G.rootIdx /\ E.rkth = G.rkth       \* the chain and the root-key table that were supplied
 TCert == Is("ParseCertBlock") /\ (ParseCertBlock21(E) \/ ParseCertBlock20(E)) /\ (Bound => CertGiven) /\ UNCHANGED pend /\ NoP /\ Adv
